@@ -109,6 +109,13 @@ def _half(draw):
     dt = float(np.float16(abs(tf - t0) * draw(st.sampled_from([0.27, 0.4, 0.125, 0.06, 0.9, 1.0]))))
     n = 2 if fam == "splitting" else 1
     prob = dict(kind="lin", A=[[0.0, 1.0], [0.0, 0.0]] if n == 2 else [[0.0]], horizon=1.0)      # constant states (q' = p = 0): the time axis is what is probed
+    if draw(st.integers(0, 5)) == 0:
+        # a declared span of more than 65504 steps (span / dt overflows in half precision): the system is built and a first
+        # call covers 40 steps of it
+        dt_small = float(np.float16(draw(st.sampled_from([1e-3, 4e-3]))))
+        Lbig = float(np.float16(draw(st.sampled_from([100.0, 2000.0]))))
+        return dict(part="runs", method=method, dtype="float16", prob=prob, y0=[1.0, 0.0][:n] if n == 2 else [1.0], t0=0.0, tf=direction * Lbig, dt=dt_small,
+                    rtol=1e-2, atol=1e-2, dense=draw(st.booleans()), ops=[["integrate_to", float(np.float16(40 * dt_small / Lbig))]])
     return dict(part="runs", method=method, dtype="float16", prob=prob, y0=[1.0, 0.0][:n] if n == 2 else [1.0], t0=t0, tf=tf, dt=dt * draw(st.sampled_from([1.0, -1.0])),
                 rtol=1e-2, atol=1e-2, dense=draw(st.booleans()), ops=[["integrate"]] + ([["integrate_to", draw(st.sampled_from([0.5, 0.0, 1.5]))]] if draw(st.booleans()) else []))
 
